@@ -244,6 +244,13 @@ func runParrots(c *vh.Ctx) map[string][]byte {
 				raws[p.Name] = raw
 			}
 		}
+		{
+			// one server-name length per fingerprint in the window where the nested server_name prefixes (n, n+3, n+5)
+			// cross 256 one after the other, within the 253-byte DNS limit: 246..253, rotating
+			l := 246 + (i+int(c.Seed))%8
+			s := shape{name: fmt.Sprintf("sni-len-%d", l), sni: longName(l), omit: true}
+			buildID(c, "parrot", p.Name+"/"+s.name, "server name length near the byte carry of the nested server_name length prefixes", p.ID, s.config(c.Seed+int64(l)))
+		}
 		if c.Tier != "quick" {
 			// server-name length sweep
 			for l := 1; l <= 255; l++ {
